@@ -123,10 +123,12 @@ def run(ck, F):
         is_head = lambda t: (M.Body.callee(t) or "") == fn or (M.Body.callee_decl(t) or "") == fn
         rec_calls = list(I.calls_through_closures(F.lib, B, is_head, head=fn))
         # a callee that was not taken in (it lies on a nested cycle) and can reach the head again: its call is a re-entry as well
-        for cbb_, ct_ in B.calls():
-            cal_ = M.Body.callee(ct_) or M.Body.callee_decl(ct_) or ""
-            if cal_ != fn and cal_ in local and fn in scans.reachable(g, [cal_]) and not any(cbb_ == x[0] and x[2] is None for x in rec_calls):
-                rec_calls.append((cbb_, ct_, None))
+        def reaches_head(t_):
+            cal_ = M.Body.callee(t_) or M.Body.callee_decl(t_) or ""
+            return cal_ != fn and cal_ in local and "{closure" not in cal_ and fn in scans.reachable(g, [cal_])
+        for cbb_, ct_, where_ in I.calls_through_closures(F.lib, B, reaches_head, head=fn):
+            if not any(cbb_ == x[0] and x[2] is where_ for x in rec_calls):
+                rec_calls.append((cbb_, ct_, where_))
         for parse_bb, pt in B.calls_to(PARSE):
             # the file whose text is parsed
             rootkey = lambda o: ("arg", o.local) if o.kind == "arg" else ("call", o.bb) if o.kind == "call" else None
